@@ -136,6 +136,7 @@ func Note(s string)               {}
 func Steps() int64                { return 0 }
 func Goroutines() int             { return 0 }
 func AtomicYield(on bool)         {}
+func RealFmt(on bool)             {}
 func Activity(n int)              {}
 
 // Concurrent runs f1 and f2 on two goroutines (the replay binary is built with
